@@ -8,7 +8,7 @@ use crate::runner::*;
 use serde_json::{json, Value};
 
 fn cfg(seed: u64) -> CrashCfg {
-    CrashCfg { torn: true, torn_only: true, recurse_every: None, suffix: true, check_contig: false, seed }
+    CrashCfg { torn: true, torn_only: true, recurse_every: None, suffix: true, check_contig: false, seed, suffix_variant: 0 }
 }
 
 pub fn run(ctx: &Ctx) {
